@@ -18,7 +18,7 @@ pub const INFO: PropInfo = PropInfo {
            non-trivial = at least one event was received; distinct = distinct hash of (scripts, producer kinds, socket behaviour)",
     state_measure: "(producer kind, script shape: burst/yield/sleep/finish-with-queue, reader pace) combinations",
     assumptions: &["messages are valid UTF-8 (Rust strings)", "total planned stream time stays below the keep-alive timeout"],
-    expected_probes: &["c17.burst_before_yield", "c17.finish_with_nonempty_queue", "c17.zero_messages", "c17.message_with_cr", "c17.message_with_lf", "c17.backpressure_fired", "c17.followup_answered", "c17.sleep_in_producer", "c17.empty_message"],
+    expected_probes: &["c17.burst_before_yield", "c17.finish_with_nonempty_queue", "c17.zero_messages", "c17.message_with_cr", "c17.message_with_lf", "c17.backpressure_fired", "c17.followup_answered", "c17.sleep_in_producer", "c17.empty_message", "c17.more_than_32_messages", "c17.more_than_256_messages"],
 };
 
 #[derive(Clone, Debug, Serialize, Deserialize, PartialEq)]
@@ -70,8 +70,20 @@ fn gen_text() -> String {
 fn gen_plan(_i: usize) -> StreamPlan {
     let n = t::weighted(&[1, 2, 3, 3, 2, 2, 1, 1]);
     let mut steps = Vec::new();
+    // long runs: counters inside the stream (fairness budgets, batch sizes, ring positions) only show after many items
+    let long = t::chance(1, 8);
     for _ in 0..n {
         match t::weighted(&[6, 3, 1]) {
+            0 if long && t::chance(1, 2) => {
+                let k = t::pick(&[15usize, 16, 17, 31, 32, 33, 34, 40, 63, 64, 65, 100, 127, 128, 129, 255, 256, 257, 300]);
+                let ping_pong = t::chance(1, 3);
+                for i in 0..k {
+                    steps.push(Step::Send(if t::chance(1, 12) { gen_text() } else { format!("b{i}") }));
+                    if ping_pong {
+                        steps.push(Step::Yield);
+                    }
+                }
+            }
             0 => {
                 let burst = 1 + t::weighted(&[6, 2, 1]);
                 for _ in 0..burst {
@@ -280,6 +292,12 @@ fn execute(sc: &Scenario, out: &mut Outcome) {
         }
         if pl.steps.windows(3).any(|w| matches!(w, [Step::Send(_), Step::Send(_), Step::Yield | Step::Sleep(_)])) {
             out.probe("c17.burst_before_yield");
+        }
+        if msgs.len() >= 33 {
+            out.probe("c17.more_than_32_messages");
+        }
+        if msgs.len() >= 257 {
+            out.probe("c17.more_than_256_messages");
         }
         if pl.steps.len() >= 2 && matches!(pl.steps[pl.steps.len() - 1], Step::Send(_)) && matches!(pl.steps[pl.steps.len() - 2], Step::Send(_)) {
             out.probe("c17.finish_with_nonempty_queue");
